@@ -233,8 +233,8 @@ func (fc *FnCtx) lemmaParams(lm *Lemma, st *State) map[string]Val {
 func (fc *FnCtx) useLemma(u LemmaUse, env *Env) {
 	var lm *Lemma
 	for _, l := range fc.eng.cs.Lemmas {
-		if l.Name == u.Name && !l.Axiom {
-			lm = l
+		if l.Name == u.Name {
+			lm = l // a lemma (proved here) or an axiom (trusted, listed in the evidence)
 		}
 	}
 	if lm == nil {
@@ -257,7 +257,11 @@ func (fc *FnCtx) useLemma(u LemmaUse, env *Env) {
 		body = implies(app(">=", lenv.vars[lm.Induct].S, "0"), body)
 	}
 	fc.assume(body)
-	fc.eng.markAxiom("lemma "+lm.Name, "proved by its own obligations under "+strings.Join(lm.Props, ",")+"; instance used as a hint")
+	if lm.Axiom {
+		fc.eng.markAxiom(lm.Name, lm.Clause.Text)
+	} else {
+		fc.eng.markAxiom("lemma "+lm.Name, "proved by its own obligations under "+strings.Join(lm.Props, ",")+"; instance used as a hint")
+	}
 }
 
 // lemmaAsFact: the lemma as a closed formula, universally quantified over its
